@@ -288,8 +288,14 @@ def csv_ok(n, tx):
     return (n & mask) <= (tx.sequence & mask)
 
 
-def execute(items, stack, tx, ctx):
-    """-> (accepted, log, reason)"""
+def run_fragment(items, stack, tx, ctx):
+    """execute a (non-top-level) fragment: -> (final stack | None if the script aborts, log, reason)"""
+    r = execute(items, stack, tx, ctx, want_stack=True)
+    return r
+
+
+def execute(items, stack, tx, ctx, want_stack=False):
+    """-> (accepted, log, reason)   [want_stack: (final stack | None, log, reason)]"""
     st = list(stack)
     alt = []
     log = []
@@ -311,7 +317,7 @@ def execute(items, stack, tx, ctx):
                 val = False
                 if executing:
                     v = pop()
-                    if ctx == "tap" and not (isinstance(v, int) and v in (0, 1)):
+                    if (ctx == "tap" or getattr(tx, "minimalif", False)) and not (isinstance(v, int) and v in (0, 1)):
                         raise Fail("MINIMALIF")
                     val = truth(v)
                     if op == "NOTIF":
@@ -451,13 +457,17 @@ def execute(items, stack, tx, ctx):
                 raise Fail("unknown opcode %s" % op)
         if cond:
             raise Fail("unbalanced IF")
+        if want_stack:
+            if alt:
+                raise Fail("alt stack not empty")
+            return st, log, ""
         if not st or not truth(st[-1]):
             return False, log, "final stack false or empty"
         if ctx in ("segwitv0", "tap") and len(st) != 1:
             return False, log, "CLEANSTACK"
         return True, log, ""
     except Fail as e:
-        return False, log, str(e)
+        return (None if want_stack else False), log, str(e)
 
 
 # ---------------------------------------------------------------------------------------------- witnesses
